@@ -27,7 +27,7 @@ ASSUMPTIONS = ['fault model: an exception raised on entry of a Python-level call
                'asynchronous exceptions between two statements of sigtools are not part of it (as the property states)',
                'C-level builtin calls on sigtools-owned containers are not crossings']
 
-EXC_TYPES = [faults.Injected, AttributeError, ValueError, TypeError, OSError, KeyError]
+EXC_TYPES = [faults.Injected, faults.InjectedBase, AttributeError, ValueError, TypeError, OSError, KeyError]
 
 
 # ------------------------------------------------------------------------------ part A
@@ -64,7 +64,18 @@ def check_algebra(op, specs, args, stats, enum=False):
     if op == 'sort_apply':
         try:
             sp = signatures.sort_params(sigs[0], sources=True)
+            # the classified pieces handed to apply_params are the caller's too: used twice, unchanged
+            snap = lambda parts: [list(x) if isinstance(x, list) else dict(x) if isinstance(x, dict) else x for x in parts]
+            kept = snap(sp)
             r = signatures.apply_params(sigs[0], *sp)
+            if snap(sp) != kept:
+                stats.fail('C16/A/sort_apply/arguments-modified', {'part': 'A', 'op': op, 'specs': [list(map(list, x)) for x in specs], 'args': args},
+                           'apply_params(sig, *sort_params(sig)) for (%s) changed the lists/dicts it was given: %r -> %r' % (
+                               universe.spec_text(specs[0]), [str(x)[:60] for x in kept[:2]], [str(x)[:60] for x in snap(sp)[:2]]))
+            rr = signatures.apply_params(sigs[0], *sp)
+            if [(q.name, int(q.kind)) for q in rr.parameters.values()] != [(q.name, int(q.kind)) for q in r.parameters.values()]:
+                stats.fail('C16/A/sort_apply/second-use-differs', {'part': 'A', 'op': op, 'specs': [list(map(list, x)) for x in specs], 'args': args},
+                           'using one sort_params((%s)) result twice gives %s then %s' % (universe.spec_text(specs[0]), r, rr))
             sp2 = signatures.sort_params(sigs[0])
             r2 = signatures.apply_params(sigs[0], *sp2)
             exc = None
@@ -163,7 +174,7 @@ def do_action(action, obj):
 def result_text(action, obj):
     try:
         return str(do_action(action, obj))
-    except Exception as e:
+    except BaseException as e:
         return 'raised ' + type(e).__name__
 
 
@@ -275,7 +286,7 @@ def run(ctx):
     allx = [e.__name__ for e in EXC_TYPES]
     if ctx.quick:
         # two instances per template; one injection per distinct crossing signature; 3 exception types
-        work = tasks(chosen, ['Injected', 'AttributeError', 'ValueError'], 1)
+        work = tasks(chosen, ['Injected', 'InjectedBase', 'AttributeError', 'ValueError'], 1)
     else:
         # every crossing index on the chosen instances (Injected), and the first 2 occurrences of every
         # distinct crossing signature on ALL instances with all exception types
